@@ -190,10 +190,10 @@ pub fn run_http_chunks_frag(file: &[u8], ranges: &[(u64, usize)], retries: u32, 
             let mut st = reader.read_chunks(ranges);
             let mut items = vec![];
             // watchdog: a reader that neither delivers nor fails (lost wake-up, endless re-requests) is a C15 matter
-            let deadline = tokio::time::Instant::now() + Duration::from_secs(6);
+            let deadline = tokio::time::Instant::now() + watchdog(6);
             loop {
                 match tokio::time::timeout_at(deadline, st.next()).await {
-                    Err(_) => { items.push(Err("TIMEOUT".to_string())); break; }
+                    Err(_) => { watchdog_hit(); items.push(Err("TIMEOUT".to_string())); break; }
                     Ok(None) => break,
                     // like Archive::chunk_stream (StreamUntilFirstError): the stream is not polled after an error
                     Ok(Some(Ok(b))) => items.push(Ok(b.to_vec())),
@@ -215,7 +215,7 @@ pub fn run_http_read_at(file: &[u8], off: u64, size: usize, retries: u32, script
         let rt = tokio::runtime::Builder::new_current_thread().enable_all().build().unwrap();
         rt.block_on(async move {
             let mut reader = HttpReader::from_url(url.parse().unwrap()).retries(retries).retry_delay(Duration::from_millis(0));
-            match tokio::time::timeout(Duration::from_secs(6), reader.read_at(off, size)).await { Err(_) => Err("TIMEOUT".to_string()), Ok(Ok(b)) => Ok(b.to_vec()), Ok(Err(e)) => Err(err_class(&e)) }
+            match tokio::time::timeout(watchdog(6), reader.read_at(off, size)).await { Err(_) => { watchdog_hit(); Err("TIMEOUT".to_string()) } Ok(Ok(b)) => Ok(b.to_vec()), Ok(Err(e)) => Err(err_class(&e)) }
         })
     });
     let log = srv.finish();
